@@ -40,14 +40,14 @@ type KnownFinding struct {
 }
 
 type AggOb struct {
-	Name    string
-	Func    string
-	Status  string
-	Solver  string
-	TimeMS  int64
-	Parts   []*Obligation
-	Src     string
-	Where   string
+	Name   string
+	Func   string
+	Status string
+	Solver string
+	TimeMS int64
+	Parts  []*Obligation
+	Src    string
+	Where  string
 }
 
 var reRet = regexp.MustCompile(`@ret\d+`)
@@ -130,17 +130,17 @@ func aggregate(obs []*Obligation) []*AggOb {
 }
 
 type checkRun struct {
-	spec     *CheckSpec
-	results  []*FuncResult
-	aggs     []*AggOb
-	errs     []string
-	engines  map[string]*Engine
-	loadMS   int64
-	wall     time.Duration
-	trusted  map[string]bool
-	unknown  map[string]int
-	abstr    map[string]int
-	assumes  []string
+	spec    *CheckSpec
+	results []*FuncResult
+	aggs    []*AggOb
+	errs    []string
+	engines map[string]*Engine
+	loadMS  int64
+	wall    time.Duration
+	trusted map[string]bool
+	unknown map[string]int
+	abstr   map[string]int
+	assumes []string
 }
 
 var engineCache = map[string]*Engine{}
@@ -440,20 +440,20 @@ func writeEvidence(cr *checkRun, tier string, seed int, total, discharged, viola
 		"seed":        seed,
 		"level":       "proof",
 		"coverage": map[string]interface{}{
-			"obligations":             total,
-			"discharged":              discharged,
-			"sub_goals":               subgoals,
-			"checker_cmd":             fmt.Sprintf("/verif/bin/gcv check --property %s --tier %s", cr.spec.Property, tier),
-			"trusted_base":            trusted,
-			"samples":                 samples,
+			"obligations":              total,
+			"discharged":               discharged,
+			"sub_goals":                subgoals,
+			"checker_cmd":              fmt.Sprintf("/verif/bin/gcv check --property %s --tier %s", cr.spec.Property, tier),
+			"trusted_base":             trusted,
+			"samples":                  samples,
 			"functions_under_contract": funcs,
-			"known_findings_met":      known,
-			"abstracted_instructions": cr.abstr,
-			"bounded_stand_ins":       cr.spec.Bounded,
-			"solver_ms":               solveMS,
-			"vcgen_ms":                genMS,
-			"load_ms":                 cr.loadMS,
-			"back_ends":               []string{"z3-5.1.0 (first)", "cvc5-1.0", "z3-4.8.12"},
+			"known_findings_met":       known,
+			"abstracted_instructions":  cr.abstr,
+			"bounded_stand_ins":        cr.spec.Bounded,
+			"solver_ms":                solveMS,
+			"vcgen_ms":                 genMS,
+			"load_ms":                  cr.loadMS,
+			"back_ends":                []string{"z3-5.1.0 (first)", "cvc5-1.0", "z3-4.8.12"},
 		},
 		"assumptions": assumptions,
 		"wall_s":      wall.Seconds(),
